@@ -202,6 +202,7 @@ func c06LibToSpec(c *h.Ctx, bucket string, n *anode) {
 }
 
 func c06(c *h.Ctx) {
+	defer amfCheckRetained(c)
 	r := c.R
 	supported := map[int]bool{0: true, 1: true, 2: true, 3: true, 5: true, 6: true, 8: true, 10: true}
 
